@@ -31,7 +31,8 @@ var siteTemplate = []struct {
 	{"a b.txt", 'f'}, {"é.txt", 'f'}, {"x*y", 'f'}, {"q?.txt", 'f'}, {"[z]", 'f'}, {"back\\slash", 'f'},
 	{"...", 'd'}, {".../t.txt", 'f'}, {"..a", 'f'}, {".htaccess", 'f'}, {"noindex", 'd'}, {"noindex/n.txt", 'f'},
 	{"idx", 'd'}, {"idx/index.html", 'd'}, {"idx/index.html/inner.txt", 'f'}, {"denied", 'p'}, {"broken", 'e'},
-	{"a.txt.gz", 'f'}, {"secret", 'd'}, {"secret/s.txt", 'f'}, {"w", 'f'},
+	{"a.txt.gz", 'f'}, {"a.txt.br", 'd'}, {"a.txt.zst", 'f'}, {"index.html.gz", 'f'}, {"secret.txt.gz", 'f'}, {"sub/b.txt.zst", 'f'},
+	{"secret", 'd'}, {"secret/s.txt", 'f'}, {"w", 'f'},
 }
 
 func (w *world) add(p string, k byte, id *int) {
@@ -142,7 +143,7 @@ func (w *world) treeField() string {
 }
 
 var hideNames = []string{"secret.txt", ".git", "hidden", "index.html", "sub", ".*", "*.txt", "s?cret.txt", "[r-t]ecret.txt",
-	"secret*", "deep", "w", "site", "...", "secret", "*", "b.txt", "[^a]*", "é*", "?.txt", "a?b.txt", "x\\*y", "[", "a\\", "[a-", "**", "[]a]", "*.gz"}
+	"secret*", "deep", "w", "site", "...", "secret", "*", "b.txt", "[^a]*", "é*", "?.txt", "a?b.txt", "x\\*y", "[", "a\\", "[a-", "**", "[]a]", "*.gz", "*.gz", "a.txt.zst"}
 
 func genHide(rng *core.Rand, w *world) []string {
 	n := rng.Intn(4)
@@ -294,9 +295,37 @@ func genServe(rng *core.Rand) string {
 	hide := genHide(rng, w)
 	idx := indexSets[rng.Intn(len(indexSets))]
 	p := genPath(rng, w)
+	sidecars := rng.Chance(1, 3)
+	if sidecars && rng.Chance(1, 2) {
+		// aim at a file that has (or may have) a sidecar in the template, make sure the pair exists
+		base := rng.Pick([]string{"a.txt", "a.txt", "index.html", "secret.txt", "sub/b.txt"})
+		suf := map[string]string{"a.txt": rng.Pick([]string{".gz", ".zst", ".br"}), "index.html": ".gz", "secret.txt": ".gz", "sub/b.txt": ".zst"}[base]
+		abs := func(rel string) string {
+			if w.R == "/" {
+				return "/" + rel
+			}
+			return w.R + "/" + rel
+		}
+		id := len(w.tree) + 100
+		w.add(abs(base), 'f', &id)
+		w.add(abs(base+suf), 'f', &id)
+		p = "/" + base
+		if rng.Chance(1, 6) {
+			p = "/x/../" + base
+		}
+	}
 	orig := genOrig(rng, p)
-	return fmt.Sprintf("serve %s %s %s %s %s %s %s %s", core.Hex(w.cwd), core.Hex(w.rootCfg), showList(hide), showList(idx),
-		bits(rng.Chance(1, 2), rng.Chance(1, 3), rng.Chance(3, 4)), core.Hex(p), core.Hex(orig), w.treeField())
+	line := fmt.Sprintf("serve %s %s %s %s %s %s %s %s", core.Hex(w.cwd), core.Hex(w.rootCfg), showList(hide), showList(idx),
+		bits(rng.Chance(1, 2), rng.Chance(1, 3), rng.Chance(3, 4), rng.Chance(1, 4), rng.Chance(1, 4), rng.Chance(1, 5)), core.Hex(p), core.Hex(orig), w.treeField())
+	if sidecars {
+		// precompressed sidecars: which modules are configured, what the client accepts
+		var acc []string
+		for n := rng.Intn(4); n > 0; n-- {
+			acc = append(acc, rng.Pick([]string{"gzip", "gzip", "br", "zstd", "identity", "deflate", "*"}))
+		}
+		line += " " + bits(rng.Chance(2, 3), rng.Chance(1, 2), rng.Chance(1, 2)) + " " + showList(acc)
+	}
+	return line
 }
 
 var tryPool = []tryFile{
